@@ -26,13 +26,12 @@
                    an empty stack) is `none` (the machine is stuck), never a default value.
     * `exec`     — successive `Next()` calls until exhaustion.
 
-  Abstractions, validated by the `mini` and `stack` streams, not by a theorem:
-    * the three persistent stacks are immutable lists that a fork copies (justified by
-      Props/C01Stack.lean) and scope indices are depths from the bottom of the frame list;
-    * SHORTCUT kept from the prototype: the closure stored by a function prologue
-      (`opstore [id, 1]`) is kept in the FRAME (`Frame.param`) rather than in `env.values`;
-      `opload [id, 1]` reads it from there.  The slot is written exactly once per frame, before
-      any fork can be created inside it, so this is not observable.
+  Abstraction, validated by the `mini` and `stack` streams, not by a theorem: the persistent
+  stacks (data stack, scope stack) are immutable lists that a fork copies — justified by
+  Props/C01Stack.lean — and scope indices are depths from the bottom of the frame list.
+  Everything else is literal: `env.values` is one register file that survives backtracking and
+  holds values AND closures (the closure a function receives is stored by its prologue into
+  register 1 of its frame and read back by `opload` through `env.index`).
   Core Lean only.
 -/
 import Gojq.Model.Json
@@ -238,17 +237,15 @@ inductive SV where
   | rest (xs : List V)
   | clo (pc : Nat) (d : Nat)
 
-/-- `scope{id, offset, pc, saveindex, outerindex}` plus: `nf`, the number of pending forks when
-    the frame was pushed (`scopes.index > scopes.limit` at `popscope` ⇔ no fork was pushed
-    since that is still pending), and the closure slot (see the SHORTCUT above) -/
+/-- `scope{id, offset, pc, saveindex, outerindex}` plus `nf`, the number of pending forks when
+    the frame was pushed (`scopes.index > scopes.limit` at `popscope` ⇔ no fork pushed since
+    then is still pending); `saveindex` is implicit in the list representation -/
 structure Frame where
   id : Nat
   ret : Nat
   base : Nat
   nf : Nat
   outer : Option Nat
-  argc : Nat
-  param : Option (Nat × Nat)
 
 /-- `fork{pc, stackindex/limit, scopeindex/limit, offset}`: the stacks as they were -/
 structure Fork where
@@ -262,8 +259,8 @@ abbrev CP := Nat × Option Nat
 instance : OfNat CP 0 := ⟨(0, none)⟩
 
 /-- `env.values` -/
-abbrev Regs := Nat → V
-def Regs.set (R : Regs) (r : Nat) (x : V) : Regs := fun i => if i = r then x else R i
+abbrev Regs := Nat → SV
+def Regs.set (R : Regs) (r : Nat) (x : SV) : Regs := fun i => if i = r then x else R i
 
 /-- `run`: at the top of the loop with `pc`, the `backtrack` and `err` locals;
     `fail`: after `break loop`, before `popfork` -/
@@ -314,33 +311,20 @@ def step (code : Code) : Cfg → Option Cfg
       | [] => none
     | some (.store sid i) =>
       match st with
-      | .v x :: s =>
+      | x :: s =>
         match resolve sid fr (fr.length - 1) with
         | some (f, _) => some (.run (pc+1) s fs bt e (R.set (f.base + i) x) fr off cp)
         | none => none                                          -- panic("env.index")
-      | .clo t d :: s =>
-        -- only a prologue stores a closure: into a parameter slot of the frame just pushed
-        match fr with
-        | f :: fr' =>
-          if f.id = sid ∧ 1 ≤ i ∧ i ≤ f.argc then
-            some (.run (pc+1) s fs bt e R ({ f with param := some (t, d) } :: fr') off cp)
-          else none
-        | [] => none
-      | _ => none
+      | [] => none
     | some (.load sid i) =>
       match resolve sid fr (fr.length - 1) with
-      | some (f, _) =>
-        if 1 ≤ i ∧ i ≤ f.argc then
-          match f.param with
-          | some (t, d) => some (.run (pc+1) (.clo t d :: st) fs bt e R fr off cp)
-          | none => none
-        else some (.run (pc+1) (.v (R (f.base + i)) :: st) fs bt e R fr off cp)
+      | some (f, _) => some (.run (pc+1) (R (f.base + i) :: st) fs bt e R fr off cp)
       | none => none                                            -- panic("env.index")
     | some (.append sid i) =>
       match st, resolve sid fr (fr.length - 1) with
       | .v x :: s, some (f, _) =>
         match R (f.base + i) with
-        | .arr xs => some (.run (pc+1) s fs bt e (R.set (f.base + i) (.arr (xs ++ [x]))) fr off cp)
+        | .v (.arr xs) => some (.run (pc+1) s fs bt e (R.set (f.base + i) (.v (.arr (xs ++ [x])))) fr off cp)
         | _ => none                                             -- failed assertion `.([]any)`
       | _, _ => none
     | some (.fork t) =>
@@ -359,7 +343,7 @@ def step (code : Code) : Cfg → Option Cfg
       match st with
       | .clo t d :: s => some (.run t s fs bt e R fr off (pc, some d))
       | _ => none                                               -- failed assertion `.([2]int)`
-    | some (.scope id n argc) =>
+    | some (.scope id n _) =>
       -- outerindex = index; if the frame there has the same id (direct recursion), its outerindex
       let outer : Option (Option Nat) := match cp.2 with
         | none => some none
@@ -367,7 +351,7 @@ def step (code : Code) : Cfg → Option Cfg
           | some f => some (if f.id = id then f.outer else some d)
           | none => none
       match outer with
-      | some o => some (.run (pc+1) st fs bt e R (⟨id, cp.1, off, fs.length, o, argc, none⟩ :: fr) (off + n) cp)
+      | some o => some (.run (pc+1) st fs bt e R (⟨id, cp.1, off, fs.length, o⟩ :: fr) (off + n) cp)
       | none => none
     | some .ret =>
       if bt then some (.fail fs e R) else
@@ -423,7 +407,7 @@ def exec (code : Code) : Nat → Cfg → List V → Outcome
 
 /-- `env.execute`: the input on the stack, no scope, `callpc = len(codes) - 1`, `index = -1` -/
 def initCfg (code : Code) (v : V) : Cfg :=
-  .run 0 [.v v] [] false none (fun _ => .null) [] 0 (code.length - 1, none)
+  .run 0 [.v v] [] false none (fun _ => .v .null) [] 0 (code.length - 1, none)
 
 def runProg (p : Prog) (fuel : Nat) (v : V) : Outcome :=
   exec (compileProg p) fuel (initCfg (compileProg p) v) []
